@@ -30,7 +30,7 @@ class ReaderDomain(Domain):
     async_enabled = False
     subscript_may_raise = False
     unpack_may_raise = False
-    global_keys = ("calls", "pos")
+    global_keys = ("#calls", "#pos")
 
     def __init__(self, prog, fn, script, miss_value):
         super().__init__(prog, fn)
@@ -61,15 +61,15 @@ class ReaderDomain(Domain):
 
     def for_next(self, node, itval, state):
         if itval == Opaque("caches"):
-            k = state.get("pos", 0)
+            k = state.get("#pos", 0)
             if k < 2:
-                return [(Opaque("cache#%d" % (k + 1)), state.set("pos", k + 1))]
+                return [(Opaque("cache#%d" % (k + 1)), state.set("#pos", k + 1))]
             return []
         return [(TOP, state)]
 
     def for_exhausted(self, node, itval, state):
         if itval == Opaque("caches"):
-            return state if state.get("pos", 0) >= 2 else None
+            return state if state.get("#pos", 0) >= 2 else None
         return state
 
     def truth(self, v, state=None):
@@ -85,11 +85,11 @@ class ReaderDomain(Domain):
         if name == "getattr" and len(args) == 2 and isinstance(args[0], Opaque) and args[0].tag.startswith("cache#") and isinstance(args[1], Const) and isinstance(args[1].v, str):
             return [("ok", BoundCall(args[0], args[1].v), state)]
         if isinstance(fval, BoundCall):
-            calls = state.get("calls", ())
+            calls = state.get("#calls", ())
             n = len(calls)
             answer = self.script[n] if n < len(self.script) else "miss"
             rec = (fval.obj.tag, fval.attr, tuple(args), tuple(sorted(kwargs.items())))
-            st = state.set("calls", calls + (rec,))
+            st = state.set("#calls", calls + (rec,))
             val = {"hit": Opaque("hit-value"), "hit-falsy": Const(b"")}.get(answer, self.miss_value)
             return [("ok", val, st)]
         if isinstance(fval, FuncRef):
@@ -193,7 +193,7 @@ def run(chk):
             if outs.of("exc"):
                 problems.append("raises %s with answers %s" % ([e.cls for s_, e, t_ in outs.of("exc")], list(script)))
             for s_, v, t_ in outs.of("ret"):
-                calls = s_.get("calls", ())
+                calls = s_.get("#calls", ())
                 for (who, attr, args, kw) in calls:
                     if attr != name:
                         problems.append("calls .%s on a cache instead of .%s" % (attr, name))
